@@ -381,7 +381,7 @@ def run_shard(ctx, shard):
             for tags in frontier:
                 for op in ops:
                     cid = 'C10/%s/state=%s/op=%s' % (cname, ''.join(map(str, tags)) or 'empty', opname(op))
-                    if not ctx.want(cid):
+                    if not ctx.want(cid, walk=True):
                         continue
                     ctx.case(cid, trivial=(len(tags) == 0 and op[0] in ('clear', 'reverse')))
                     succ = check_step(ctx, m, tags, op, cid)
